@@ -201,16 +201,19 @@ func saveState(lastMessages map[string]interface{}) {
 		return
 	}
 
-	// Move old config file to backup and new file to standard config name.
+	// Keep the old config file as a backup and move the new file to the standard config name.
+	// The backup is a hard link to the old file, so the standard name never goes missing:
+	// the rename below replaces it atomically, and if dastard dies at any point in between,
+	// the next start-up finds either the complete old file or the complete new one.
 	err = os.Remove(bakname)
 	if err != nil && !os.IsNotExist(err) {
 		log.Println("Could not remove backup file ", bakname, " even though it exists: ", err)
 		return
 	}
-	err = os.Rename(mainname, bakname)
+	err = os.Link(mainname, bakname)
 	if err != nil && !os.IsNotExist(err) {
+		// The backup is a convenience; not having one is no reason to lose the new state.
 		log.Println("Could not save backup file: ", err)
-		return
 	}
 	err = os.Rename(tmpname, mainname)
 	if err != nil {
